@@ -5,4 +5,5 @@ cd "$(dirname "$0")/.." || exit 2
 P="$1"; N="$2"; OUT="$3"; WT="${4:-}"
 python3 lib/confirm_seed.py "$OUT" "$P" "$N" 2>&1 | grep -E '"confirmed"|demo_|"build"|"tests"|rror'
 [ -d "seeded/$N" ] && lib/seed_matrix.sh quick "seeded/$N"
-[ -n "$WT" ] && git -C /repo worktree remove --force "$WT" && rm -rf "$OUT"
+# the scratch worktree and the deliverables go only when the change was confirmed and stored
+[ -d "seeded/$N" ] && [ -n "$WT" ] && git -C /repo worktree remove --force "$WT" && rm -rf "$OUT"
